@@ -18,7 +18,7 @@ package datatransfer
 //@ interface Message
 //@   pure IsRequest, IsRestart, IsNew, IsUpdate, IsPaused, IsCancel, TransferID
 //@ interface Request
-//@   pure IsPull, IsVoucher, VoucherType, Voucher, TypedVoucher, BaseCid, Selector, IsRestartExistingChannelRequest, RestartChannelId, EmptyVoucher
+//@   pure IsPull, IsVoucher, VoucherType, Voucher, TypedVoucher, BaseCid, Selector, IsRestartExistingChannelRequest, RestartChannelId
 //@ interface Response
 //@   pure IsValidationResult, IsComplete, Accepted, VoucherResultType, VoucherResult, EmptyVoucherResult
 
